@@ -1,5 +1,5 @@
 import BPT.C.Refs
-import BPT.C.Api
+import BPT.C.Wrapper
 import BPT.Generated.TieC
 /-
   C12 — the C extension mapping behaves like dict; iterators fail fast on mutation.
@@ -15,11 +15,12 @@ import BPT.Generated.TieC
   leave the allocated geometry (`Res.ub`); the iterator raises RuntimeError as its first action
   whenever the stamps differ, and every successful mutation strictly increases the stamp.
 
-  Partial, and said so: that a *drained* iterator (`list(t.items())`, and the wrapper methods
-  built on it: values, popitem, copy, clear) yields exactly `abs s` — the walk over the chain that
-  skips empty leaves — is decided by the correspondence run and the dict oracle, not yet by a
-  theorem.  The three comparison fast paths (exact int, exact str, rich compare) are glue covered
-  by the correspondence run with four key representations.
+  Iteration: on a valid, unmodified tree each `next()` yields the next entry in key order, skipping
+  leaves emptied by deletions (`C.iterNext_pos`); a drained iterator is exactly `abs s`
+  (`C.items_spec`), so `keys()/items()/values()` and the wrapper's popitem / copy / clear, which are
+  built on it, have dict semantics too.
+  Partial, and said so: the three comparison fast paths (exact int, exact str, rich compare) and
+  argument parsing are glue covered by the correspondence run with five key representations.
 -/
 namespace BPT.Props.C12
 open BPT BPT.C Tree
@@ -37,15 +38,21 @@ inductive Op (K V : Type) where
   | wpop (k : K) (d : Option V)
   | wsetdefault (k : K) (d : V)
   | wupdate (its : List (K × V))
+  | items                                   -- `list(t.items())`; keys() / values() are its projections
+  | wpopitem
+  | wcopy                                   -- the history continues on the copy
+  | wclear
 
-inductive Out (V : Type) where
+inductive Out (K V : Type) where
   | unit
   | keyError
   | val (v : V)
   | bool (b : Bool)
   | nat (n : Nat)
+  | item (k : K) (v : V)
+  | list (l : List (K × V))
 
-def step (s : CState K V) : Op K V → Res (CState K V × Out V)
+def step (s : CState K V) : Op K V → Res (CState K V × Out K V)
   | .set k v => (setitem Cfg.repaired s k v).map fun r => (r.1, .unit)
   | .del k => (delitem s k).map fun r => match r with | some (s', _) => (s', .unit) | none => (s, .keyError)
   | .get k => (getitem s k).map fun r => (s, match r.1 with | some v => .val v | none => .keyError)
@@ -55,8 +62,12 @@ def step (s : CState K V) : Op K V → Res (CState K V × Out V)
   | .wpop k d => (wpop s k d).map fun r => (r.1, match r.2 with | some v => .val v | none => .keyError)
   | .wsetdefault k d => (wsetdefault Cfg.repaired s k d).map fun r => (r.1, .val r.2)
   | .wupdate its => (wupdate Cfg.repaired s its).map fun s' => (s', .unit)
+  | .items => (items s).map fun l => (s, .list l)
+  | .wpopitem => (wpopitem s).map fun r => (r.1, match r.2 with | some (k, v) => .item k v | none => .keyError)
+  | .wcopy => (wcopy Cfg.repaired s).map fun s' => (s', .unit)
+  | .wclear => (wclear (s.size + 1) s).map fun s' => (s', .unit)
 
-def specStep (m : List (K × V)) : Op K V → List (K × V) × Out V
+def specStep (m : List (K × V)) : Op K V → List (K × V) × Out K V
   | .set k v => (SMap.insert m k v, .unit)
   | .del k => (SMap.erase m k, if (SMap.lookup m k).isSome then .unit else .keyError)
   | .get k => (m, match SMap.lookup m k with | some p => .val p.2 | none => .keyError)
@@ -72,6 +83,10 @@ def specStep (m : List (K × V)) : Op K V → List (K × V) × Out V
     | some p => (m, .val p.2)
     | none => (SMap.insert m k d, .val d)
   | .wupdate its => (its.foldl (fun m kv => SMap.insert m kv.1 kv.2) m, .unit)
+  | .items => (m, .list m)
+  | .wpopitem => (match m with | [] => ([], .keyError) | p :: rest => (rest, .item p.1 p.2))
+  | .wcopy => (m, .unit)
+  | .wclear => ([], .unit)
 
 theorem erase_of_lookup_none (m : List (K × V)) (k : K) (h : SMap.lookup m k = none) : SMap.erase m k = m := by
   apply SMap.erase_of_ne
@@ -95,34 +110,34 @@ theorem wupdate_spec (its : List (K × V)) : ∀ (s : CState K V), CInv s →
 
 /-- one call: the specification's answer, nothing but KeyError, never out of bounds, invariant kept -/
 theorem step_refines (s : CState K V) (op : Op K V) (hi : CInv s) :
-    ∃ s', step s op = .ok (s', (specStep (abs s) op).2) ∧ CInv s' ∧ abs s' = (specStep (abs s) op).1 ∧ s'.cap = s.cap := by
+    ∃ s', step s op = .ok (s', (specStep (abs s) op).2) ∧ CInv s' ∧ abs s' = (specStep (abs s) op).1 := by
   cases op with
   | set k v =>
     obtain ⟨s', ev, he, h1, h2, h3, _⟩ := setitem_spec Cfg.repaired s k v hi
-    exact ⟨s', by simp [step, he, specStep], h1, h2, h3⟩
+    exact ⟨s', by simp [step, he, specStep], h1, h2⟩
   | del k =>
     obtain ⟨r, he, hr⟩ := delitem_spec s k hi
     cases r with
     | none =>
-      refine ⟨s, ?_, hi, ?_, rfl⟩
+      refine ⟨s, ?_, hi, ?_⟩
       · simp [step, he, specStep, hr]
       · simp only [specStep]; exact (erase_of_lookup_none (abs s) k hr).symm
     | some p =>
       obtain ⟨s', ev⟩ := p
       obtain ⟨h1, h2, h3, h4, _⟩ := hr
-      exact ⟨s', by simp [step, he, specStep, h3], h1, h2, h4⟩
+      exact ⟨s', by simp [step, he, specStep, h3], h1, h2⟩
   | get k =>
     obtain ⟨ev, he⟩ := getitem_spec s k hi
-    refine ⟨s, ?_, hi, rfl, rfl⟩
+    refine ⟨s, ?_, hi, rfl⟩
     simp only [step, he, Res.map_ok, specStep]
     cases SMap.lookup (abs s) k <;> rfl
   | contains k =>
     obtain ⟨ev, he⟩ := contains_spec s k hi
-    exact ⟨s, by simp [step, he, specStep], hi, rfl, rfl⟩
-  | len => exact ⟨s, by simp [step, specStep, len_spec s hi], hi, rfl, rfl⟩
+    exact ⟨s, by simp [step, he, specStep], hi, rfl⟩
+  | len => exact ⟨s, by simp [step, specStep, len_spec s hi], hi, rfl⟩
   | wget k d =>
     obtain ⟨ev, he⟩ := getitem_spec s k hi
-    refine ⟨s, ?_, hi, rfl, rfl⟩
+    refine ⟨s, ?_, hi, rfl⟩
     simp only [step, wget, he, Res.map_ok, specStep]
     cases SMap.lookup (abs s) k <;> rfl
   | wpop k d =>
@@ -130,7 +145,7 @@ theorem step_refines (s : CState K V) (op : Op K V) (hi : CInv s) :
     simp only [step, wpop, he, Res.bind_ok, specStep]
     cases hl : SMap.lookup (abs s) k with
     | none =>
-      refine ⟨s, ?_, hi, rfl, rfl⟩
+      refine ⟨s, ?_, hi, rfl⟩
       simp only [Option.map_none, Res.map_ok]
     | some p =>
       obtain ⟨r, hd, hr⟩ := delitem_spec s k hi
@@ -139,24 +154,42 @@ theorem step_refines (s : CState K V) (op : Op K V) (hi : CInv s) :
       | some q =>
         obtain ⟨s', ev'⟩ := q
         obtain ⟨h1, h2, _, h4, _⟩ := hr
-        exact ⟨s', by simp [hd], h1, h2, h4⟩
+        exact ⟨s', by simp [hd], h1, h2⟩
   | wsetdefault k d =>
     obtain ⟨ev, he⟩ := getitem_spec s k hi
     simp only [step, wsetdefault, he, Res.bind_ok, specStep]
     cases hl : SMap.lookup (abs s) k with
-    | some p => exact ⟨s, by simp, hi, rfl, rfl⟩
+    | some p => exact ⟨s, by simp, hi, rfl⟩
     | none =>
       obtain ⟨s', ev', hs, h1, h2, h3, _⟩ := setitem_spec Cfg.repaired s k d hi
-      exact ⟨s', by simp [hs], h1, h2, h3⟩
+      exact ⟨s', by simp [hs], h1, h2⟩
   | wupdate its =>
     obtain ⟨s', he, h1, h2, h3⟩ := wupdate_spec its s hi
-    exact ⟨s', by simp [step, he, specStep], h1, h2, h3⟩
+    exact ⟨s', by simp [step, he, specStep], h1, h2⟩
+  | items => exact ⟨s, by simp [step, items_spec s hi, specStep], hi, rfl⟩
+  | wpopitem =>
+    have := wpopitem_spec s hi
+    simp only [step, specStep]
+    cases hm : abs s with
+    | nil =>
+      rw [hm] at this
+      exact ⟨s, by simp [this], hi, hm⟩
+    | cons p rest =>
+      rw [hm] at this
+      obtain ⟨s', he, h1, h2, _⟩ := this
+      exact ⟨s', by simp [he], h1, h2⟩
+  | wcopy =>
+    obtain ⟨s', he, h1, h2, _⟩ := wcopy_spec s hi
+    exact ⟨s', by simp [step, he, specStep], h1, h2⟩
+  | wclear =>
+    obtain ⟨s', he, h1, h2, _⟩ := wclear_spec s.size s hi rfl
+    exact ⟨s', by simp [step, he, specStep], h1, h2⟩
 
-def run : CState K V → List (Op K V) → Res (CState K V × List (Out V))
+def run : CState K V → List (Op K V) → Res (CState K V × List (Out K V))
   | s, [] => .ok (s, [])
   | s, op :: ops => (step s op).bind fun r => (run r.1 ops).map fun q => (q.1, r.2 :: q.2)
 
-def specRun : List (K × V) → List (Op K V) → List (K × V) × List (Out V)
+def specRun : List (K × V) → List (Op K V) → List (K × V) × List (Out K V)
   | m, [] => (m, [])
   | m, op :: ops => ((specRun (specStep m op).1 ops).1, (specStep m op).2 :: (specRun (specStep m op).1 ops).2)
 
@@ -166,7 +199,7 @@ theorem run_refines (ops : List (Op K V)) : ∀ (s : CState K V), CInv s →
   | nil => intro s hi; exact ⟨s, rfl, hi, rfl⟩
   | cons op ops ih =>
     intro s hi
-    obtain ⟨s1, he, hi1, ha1, _⟩ := step_refines s op hi
+    obtain ⟨s1, he, hi1, ha1⟩ := step_refines s op hi
     obtain ⟨s', h1, h2, h3⟩ := ih s1 hi1
     refine ⟨s', ?_, h2, ?_⟩
     · simp only [run, he, Res.bind_ok, h1, Res.map_ok, specRun, ha1]
@@ -180,6 +213,17 @@ theorem refines_dict (c : Nat) (h4 : 4 ≤ c) (h16 : c < 2 ^ capacityBits) (ops 
   obtain ⟨s', h1, h2, h3⟩ := run_refines ops s0 hinv0
   rw [habs0] at h1 h3
   exact ⟨s0, s', h0, h1, h2, h3⟩
+
+/-- **iteration**: a drained `items()` iterator is exactly the contents in ascending key order, each entry once -/
+theorem items_sorted_complete (s : CState K V) (hi : CInv s) : items s = .ok (abs s) ∧ SMap.Sorted (abs s) :=
+  ⟨items_spec s hi, toList_sorted s.height s.root none none hi.ord⟩
+
+/-- each `next()` on a fresh or partially consumed iterator over an unmodified tree yields the next entry
+    (key or pair), or reports exhaustion when nothing is left; an exhausted iterator stays exhausted -/
+theorem next_yields_head (s : CState K V) (hi : CInv s) (it : Iter) (R : List (K × V)) (hp : Pos s it R) :
+    ∃ it', iterNext s it = .ok (it', outOf it.withValues R) ∧ Pos s it' R.tail :=
+  let ⟨it', h1, h2, _⟩ := iterNext_pos s (walk_of_cinv s hi) it R hp
+  ⟨it', h1, h2⟩
 
 /-- **fail fast**: an iterator whose stamp differs from the tree's raises RuntimeError before it looks at any node -/
 theorem iterator_fail_fast (s : CState K V) (it : Iter) (h : it.modc ≠ s.modc) :
@@ -219,10 +263,10 @@ theorem iterator_stale_after_del (s : CState K V) (hi : CInv s) (b : Bool) (k : 
 
 /-- non-vacuity: a concrete history through a leaf split -/
 example : ∃ s0 s', (new Cfg.repaired 4 : Option (CState Int Nat)) = some s0 ∧
-    run s0 [.set 1 10, .set 2 20, .set 3 30, .set 4 40, .set 5 50, .del 2, .get 3, .len] =
-      .ok (s', [.unit, .unit, .unit, .unit, .unit, .unit, .val 30, .nat 4]) := by
+    run s0 [.set 1 10, .set 2 20, .set 3 30, .set 4 40, .set 5 50, .del 2, .get 3, .len, .wpopitem, .items] =
+      .ok (s', [.unit, .unit, .unit, .unit, .unit, .unit, .val 30, .nat 4, .item 1 10, .list [(3, 30), (4, 40), (5, 50)]]) := by
   obtain ⟨s0, s', h0, h1, _, _⟩ := refines_dict (K := Int) (V := Nat) 4 (by omega) (by decide)
-    [.set 1 10, .set 2 20, .set 3 30, .set 4 40, .set 5 50, .del 2, .get 3, .len]
+    [.set 1 10, .set 2 20, .set 3 30, .set 4 40, .set 5 50, .del 2, .get 3, .len, .wpopitem, .items]
   refine ⟨s0, s', h0, ?_⟩
   rw [h1]; rfl
 
